@@ -60,7 +60,8 @@ CATALOG = {
 
 
 M_CATALOG = {
-    "C04": [{"engine": "M", "name": "m-c04-dispatch", "functions": ["src/main.rs::main (MIR CFG: dispatch on Context.check_mode)"]}],
+    "C04": [{"engine": "M", "name": "m-c04-dispatch", "functions": ["src/main.rs::main (MIR CFG: dispatch on Context.check_mode)"]},
+            {"engine": "M", "name": "m-c04-no-mutating-calls", "functions": ["call graph of every function of the crate (MIR dump)"]}],
     "C18": [{"engine": "M", "name": "m-c18-signals", "functions": ["src/main.rs::main (MIR: arguments of signal_hook::flag::register)"]},
             {"engine": "M", "name": "m-c18-only-flag-handlers", "functions": ["src/main.rs::main (MIR: every call into signal_hook)"]}],
 }
